@@ -192,6 +192,10 @@ def shapes(mm, vse, alt, k, site_or=None):
         for nm in names:
             add("keyname", nm)
             add("keyname", "a-" + nm + "-b")
+        # strings that *look like* a sibling alternative (a number, a pair, a boolean, null, JSON text): a hook that
+        # tries the other alternative first and falls back on failure turns "42" into 42 or into the pair (4, 2)
+        for sv in ("42", "007", " 7 ", "1_000", "0", "-1", "1.5", "1e3", "true", "null", "[1, 2]", "{}", "\u0664\u0662", "ab", "12ab"):
+            add("lookalike", sv)
     return out
 
 
